@@ -866,6 +866,11 @@ class ObjectMixin:
             if optional_vars is not None:
                 self.assign_target(optional_vars, cm, env)
             body()
+            hook = self.st.ghost.get("on_lock_release")
+            if hook is not None:
+                # a lock release is a point where another thread may observe the object: the unit may record what is visible
+                # there (used for "authority is granted last", seed C09-H)
+                self.st.emit("lock_release", tag=cm.tag, snap=hook(self))
             return
         raise Unsupported(f"with-statement on {type(cm).__name__}")
 
